@@ -299,7 +299,7 @@ def configs(tier: str, seed: int) -> List[Dict[str, Any]]:
         # two transactions opened from one table handle: the younger one finishes first
         add(b, "sibling_rollback_then_commit_old")
         if tier != "quick" or b == "local":
-            add(b, "sibling_commit_then_commit_old")
+            add(b, "sibling_commit_then_commit_old", bound=1 if tier == "quick" else 2)
         # a slow collection run (10 min << grace) with a whole append landing in the middle of it
         add(b, "append_fresh", bound=1, max_lags=1)
         # a whole collection run of another process lands atomically at any point of the append; the writer may stall
